@@ -194,7 +194,11 @@ def finish(pid, tier, seed, level, agg, t0, extra_cov=None, assumptions=None):
         rc = 1
     cov = {}
     if level == "model_checking":
-        cov.update({"states": max(agg["states"], 0), "transitions": max(agg["transitions"], 0), "traces_validated_against_impl": agg["transitions"]})
+        if agg["states"] >= 1 and agg["transitions"] >= 1:
+            cov.update({"states": agg["states"], "transitions": agg["transitions"], "traces_validated_against_impl": agg["transitions"]})
+        else:
+            # every exploration was cut in its initial state (a violation before the first transition): there is no graph to report
+            cov.update({"states_reached": max(agg["states"], 0), "transitions_executed": max(agg["transitions"], 0)})
     cov.update({"evaluations": max(agg.get("executions", 0), agg.get("evaluations", 0)), "distinct_nontrivial": agg.get("distinct_nontrivial", agg["states"]),
                 "rule": agg.get("rule", "every operation history up to the depth bound is executed from scratch on the real implementation; distinct = distinct canonical (representation, model) states at distinct depths; non-trivial = all of them except the initial empty state, which is not counted separately"),
                 "samples": agg["samples"][:8] or [{"note": "no sample recorded"}],
@@ -211,7 +215,14 @@ def finish(pid, tier, seed, level, agg, t0, extra_cov=None, assumptions=None):
         cov.update(extra_cov)
     ev = {"property_id": pid, "tier": tier, "seed": seed, "level": level, "coverage": cov,
           "assumptions": assumptions or [props.HX_NOTE], "wall_s": round(time.time() - t0, 2), "violations": len(seen_sig)}
-    validate_evidence(ev)
+    try:
+        validate_evidence(ev)
+    except MachineryError as e:
+        # A run that was cut short by a violation may have covered too little for the schema's minimum counts; the verdict
+        # must not be lost over that. Without a violation an invalid evidence file is a machinery failure.
+        if not rc:
+            raise
+        log("evidence of this violated run does not meet the schema's minimum counts: %s" % str(e).strip().splitlines()[-1][:200])
     write_json(os.path.join(EVIDENCE, "%s.json" % pid), ev)
     # a per-tier copy is kept as well, so that a quick run does not erase what the last thorough run covered
     write_json(os.path.join(EVIDENCE, tier, "%s.json" % pid), ev)
